@@ -20,6 +20,7 @@ CONFIG = {
         "the theorems are stated for well-formed states: .BRD holds exactly BNumber <= MAX_BOARD complete records, the shared copy equals the records up to FirstChild (and the post-mask bit of hidden boards), both indexes are sorted permutations, occupied names are pairwise distinct up to letter case; other tables (torn tail, more than MAX_BOARD records, duplicate names) are compared with the model, not judged",
         "single process: BBusyState and BusyStateB are 0 (the busy branches of ResetBoard/SortBCache/GetBid are not modelled)",
         "no hidden-board friend list is loaded for the slot of a new board (Shm.Hbfl empty, no `visible` file)",
+        "ptt.NewBoard is driven directly (bbs.CreateBoard only copies its arguments and calls ptttype.NewBM, which is driven on its own by the `newbm` op)",
         "pwcuBitEnableLevel (called by groupOp and IsBMCache) discards the result of pwcuEnableBit: it rewrites the caller's .PASSWDS record unchanged and is modelled as a no-op",
     ],
 }
